@@ -988,3 +988,49 @@ func lineageFed(p *core.Program, fn *ssa.Function, prm *ssa.Parameter) (ssa.Valu
 	}
 	return idx, site, idx != nil
 }
+
+// ruleEnvBoolFlags (C16-R11, shared): a boolean flag that can also be set from the environment is read by its value.
+// urfave/cli counts a flag as set as soon as its environment variable exists, whatever it says, so a switch that is
+// decided by IsSet alone is turned on by HR_X=false or HR_X=0.
+func ruleEnvBoolFlags(c *core.Ctx, rule string) {
+	decls := collectFlags(c.P)
+	reads := collectFlagReads(c.P)
+	n := 0
+	for _, d := range decls {
+		if d.Kind != "BoolFlag" || len(d.EnvVars) == 0 {
+			continue
+		}
+		n++
+		names := map[string]bool{}
+		for _, nm := range d.Names {
+			names[nm] = true
+		}
+		for _, a := range d.Aliases {
+			names[a] = true
+		}
+		var isSet []flagRead
+		byValue := false
+		for _, r := range reads {
+			if !names[r.Name] {
+				continue
+			}
+			switch r.Method {
+			case "IsSet":
+				isSet = append(isSet, r)
+			case "Bool":
+				byValue = true
+			}
+		}
+		disc := "--" + d.Names[0]
+		pos := c.P.Pos(d.Pos)
+		c.Universe(rule+" boolean flags with an environment variable", disc+" ["+strings.Join(d.EnvVars, ",")+"] ("+pos+")")
+		if len(isSet) > 0 && !byValue {
+			c.Violate(rule, "flags", disc, c.P.Pos(isSet[0].Call.Pos()), "the switch "+disc+" can be set from the environment ("+strings.Join(d.EnvVars, ", ")+") but is decided by IsSet alone: the library counts the flag as set whenever the variable exists, so "+d.EnvVars[0]+"=false (or =0) turns the switch on", nil)
+		} else {
+			c.Discharge(rule, "flags", disc, pos, "read by its value")
+		}
+	}
+	if n == 0 {
+		c.Note(rule + ": no boolean flag declares an environment variable")
+	}
+}
